@@ -1,6 +1,7 @@
 import S3V.Model.SigDispatch
 import S3V.Thm.SigV2Verdict
 import S3V.Thm.SigV4Verdict
+import S3V.Thm.SigV4Presigned
 import S3V.Spec.Service
 /-!
 # Lemmas: the dispatcher `SigDispatch.check` (C07 on concrete requests)
@@ -236,6 +237,127 @@ theorem presigned_no_provider (sha256hex : Bytes → Bytes) (hmac : Bytes → By
 theorem post_no_provider (hmac : Bytes → Bytes → Bytes) (fields : List (Bytes × Bytes)) (ak r s : Bytes) :
     v4CheckPostSignature hmac none fields ≠ .accept ak r s := by
   simp [v4CheckPostSignature]
+
+/-! ## "no `Authorization` header", on the wire -/
+
+/-- on a sorted vector `get_unique` answers when exactly one pair carries the name -/
+theorem getUnique_isSome_of_count_one {hs : List (Bytes × Bytes)} (hsort : SortedBy hs) {name : Bytes}
+    (h : (hs.filter (fun p => p.1 = name)).length = 1) : (getUnique hs name).isSome = true := by
+  rw [← filter_dropWhile_lt] at h
+  have hsub : (hs.dropWhile fun x => bLt x.1 name).Pairwise (fun a b => bLt b.1 a.1 = false) :=
+    List.Pairwise.sublist (List.dropWhile_sublist _) hsort
+  unfold getUnique
+  cases hd : (hs.dropWhile fun x => bLt x.1 name) with
+  | nil => rw [hd] at h; simp at h
+  | cons p rest =>
+    rw [hd] at h hsub
+    have hp0 : bLt p.1 name = false := dropWhile_head_false _ hs p rest hd
+    rw [List.pairwise_cons] at hsub
+    have hpn : p.1 = name := by
+      apply Classical.byContradiction
+      intro hne
+      have hgt : bLt name p.1 = true := by
+        cases hb : bLt name p.1 with
+        | true => rfl
+        | false => exact absurd (bLt_total hp0 hb) hne
+      have hnil : (p :: rest).filter (fun q => q.1 = name) = [] := by
+        rw [List.filter_eq_nil_iff]
+        intro q hq
+        simp only [decide_eq_true_eq]
+        intro hqn
+        rcases List.mem_cons.mp hq with rfl | hq'
+        · exact hne hqn
+        · have h1 : bLt q.1 p.1 = false := hsub.1 q hq'
+          rw [hqn, hgt] at h1; cases h1
+      rw [hnil] at h; simp at h
+    cases rest with
+    | nil => simp [hpn]
+    | cons f tail =>
+      have hf : f.1 ≠ name := by
+        intro hfn
+        rw [List.filter_cons, List.filter_cons] at h
+        simp [hpn, hfn] at h
+      simp [hf, hpn]
+
+theorem getAll_eq (hs : List (Bytes × Bytes)) (name : Bytes) :
+    SigV2.getAll hs name = (getAllPairs hs name).map (·.2) := by
+  have h1 : (fun x : Bytes × Bytes => SigV2.bLt x.1 name) = (fun x => SigV4.bLt x.1 name) := by
+    funext x; exact bLt_eq _ _
+  have h2 : (fun x : Bytes × Bytes => !SigV2.bLt name x.1) = (fun x => bLe x.1 name) := by
+    funext x; rw [bLt_eq]; rfl
+  unfold SigV2.getAll SigV2.lowerBound getAllPairs
+  rw [h1, h2]
+
+/-- `Authorization` is neither repeated nor present once in the `OrderedHeaders` of a request exactly when no header
+    line of the request is named `authorization` in any spelling of the letters' case -/
+theorem noHeader_iff {raw hs : List (Bytes × Bytes)} (h : orderedHeaders raw = some hs) (name : Bytes) :
+    (((SigV2.getAll hs name).drop 1).isEmpty = true ∧ getUnique hs name = none) ↔
+      ∀ x ∈ raw, lower x.1 ≠ name := by
+  have hhs : hs = hsOf raw := by
+    unfold orderedHeaders at h
+    split at h
+    · injection h with h; exact h.symm
+    · cases h
+  subst hhs
+  have hsorted : SortedBy (hsOf raw) := sortByFirst_sorted _
+  have hlen : ((hsOf raw).filter (fun p => p.1 = name)).length = (raw.filter fun x => lower x.1 = name).length := by
+    rw [← getAllPairs_sorted hsorted, getAllPairs_hsOf, List.length_map]
+  rw [getAll_eq, getAllPairs_hsOf]
+  constructor
+  · rintro ⟨hd, hu⟩
+    have hle : (raw.filter fun x => lower x.1 = name).length ≤ 1 := by
+      cases hf : raw.filter (fun x => lower x.1 = name) with
+      | nil => simp
+      | cons a t =>
+        rw [hf] at hd
+        cases t with
+        | nil => simp
+        | cons b t' => simp at hd
+    have hne : (raw.filter fun x => lower x.1 = name).length ≠ 1 := by
+      intro h1
+      have := getUnique_isSome_of_count_one hsorted (hlen.trans h1)
+      rw [hu] at this; cases this
+    have hz : (raw.filter fun x => lower x.1 = name) = [] := by
+      cases hf : raw.filter (fun x => lower x.1 = name) with
+      | nil => rfl
+      | cons a t =>
+        rw [hf] at hle hne
+        cases t with
+        | nil => exact absurd rfl hne
+        | cons b t' => simp at hle
+    intro x hx hxn
+    have : x ∈ raw.filter (fun x => lower x.1 = name) := by
+      rw [List.mem_filter]; exact ⟨hx, by simpa using hxn⟩
+    rw [hz] at this; cases this
+  · intro hall
+    have hz : (raw.filter fun x => lower x.1 = name) = [] := by
+      rw [List.filter_eq_nil_iff]
+      intro x hx
+      simpa using hall x hx
+    constructor
+    · rw [hz]; rfl
+    · apply getUnique_none_of_count hsorted
+      rw [hlen, hz]; simp
+
+/-- what `ops::prepare` puts into the context it hands to the signature check -/
+theorem prepareCtx_go_ok {w : E2E.Wire} {p : E2E.Prepared} {path : Bytes} (h : E2E.prepareCtx.go w path = .ok p) :
+    orderedHeaders w.headers = some p.c.hs ∧ p.c.method = w.method ∧ p.hasQuery = w.rawQuery.isSome ∧
+      p.c.qs = (match w.rawQuery with | some q => orderedQs q | none => []) := by
+  unfold E2E.prepareCtx.go at h
+  dsimp only at h
+  repeat' split at h
+  all_goals first
+    | (cases h; done)
+    | (injection h with h; subst h; simp_all)
+
+theorem prepareCtx_ok {w : E2E.Wire} {p : E2E.Prepared} (h : E2E.prepareCtx w = .ok p) :
+    orderedHeaders w.headers = some p.c.hs ∧ p.c.method = w.method ∧ p.hasQuery = w.rawQuery.isSome ∧
+      p.c.qs = (match w.rawQuery with | some q => orderedQs q | none => []) := by
+  unfold E2E.prepareCtx at h
+  repeat' split at h
+  all_goals first
+    | (cases h; done)
+    | exact prepareCtx_go_ok h
 
 /-! ## `Service.afterSig`: who runs, with which identity -/
 
